@@ -143,8 +143,9 @@ def gen_case(c, g):
             v = g.value(kd, [j for j in range(n)])
             if v is None:
                 v = NONE if not kd.endswith("!") else g.value(kd, list(range(n))) or vint(1)
-            if v["t"] == "ref" and desc["nodes"][v["n"]]["cls"] in TASKS:
-                continue            # an unsubmitted task as a value is rejected for another reason
+            if any(desc["nodes"][m]["cls"] in TASKS for m in identgen._export_succs(dict(fields=[["v", v]], pre=[], init=[], task=None))
+                   if m < len(desc["nodes"])):
+                continue            # an unsubmitted task as a value (at any depth) is rejected for another reason
             ops.append(dict(op="assign", n=i, name=s, v=v))
         elif k == "meta":
             ops.append(dict(op="meta", n=i, flag=c.rng.choice([True, False, None])))
@@ -163,7 +164,9 @@ def gen_case(c, g):
             containers = [(j, s_) for j in fr for s_, kd in SLOTS[desc["nodes"][j]["cls"]].items()
                           if kd.lstrip("o").startswith(("l", "d")) and kd not in ("int", "int!") and s_ not in READONLY
                           and kd.lstrip("o")[:1] in ("l", "d") and kd.lstrip("o") not in ("double",)]
-            if containers and c.rng.random() < 0.4:
+            if submitted and light and c.rng.random() < 0.25:
+                ops.append(dict(op="initappend", n=c.rng.choice(submitted), ids=c.rng.sample(light, 1)))
+            elif containers and c.rng.random() < 0.4:
                 j, s_ = c.rng.choice(containers)
                 ops.append(dict(op="inplace", n=j, name=s_))
             elif fr and light and c.rng.random() < 0.6:
@@ -182,7 +185,7 @@ def gen_case(c, g):
     return dict(desc=desc, ops=ops, n=n)
 
 
-NOT_MODELLED = ("jobpath", "copyconfig", "clone")
+NOT_MODELLED = ("jobpath", "copyconfig", "clone", "initappend")
 
 
 def g_sop(o):
@@ -254,11 +257,13 @@ def oracle(c, case, r):
     first = {o["n"]: a for o, a in zip(r["ops"][:n], r["answers"][:n])}
     for o, a in zip(r["ops"], r["answers"]):
         k = o["op"]
-        if k not in ("copyconfig", "clone"):
+        if k not in ("copyconfig", "clone", "initappend"):
             c.count("op:" + k + ("" if k in ("full", "raw", "jobpath", "seal") else (":frozen" if o["n"] in frozen else ":free")))
         if k in ("assign", "meta", "pre", "prefrom", "resubmit", "preappend", "copydeps", "inplace") and o["n"] in frozen and not a.startswith("rejected:"):
             c.violation(f"C14:attempt-accepted:{k}", f"a {k} attempt on a frozen configuration was not rejected",
                         dict(desc=case["desc"], ops=case["ops"], op=o, answer=a))
+        if k == "initappend":
+            c.count("op:initappend")
         if k in ("copyconfig", "clone"):
             c.count("op:" + k + (":frozen" if o["n"] in frozen else ":free"))
             if a.startswith("copybad:"):
